@@ -96,20 +96,45 @@ def joint_generation_decision(ctx, rule: str):
     P = ctx.project
     f = P.func("formulaic.model_spec.ModelSpecs.get_model_matrix")
     ctx.look()
-    ok, why = contains(P, f, """
-        def get_model_matrix(self, data, context=None, drop_rows=None, **attr_overrides):
-            jointly_generate = False
-            materializer, materializer_params = None, None
-            for spec in self._flatten():
-                if not spec.materializer:
-                    continue
-                if materializer not in (None, spec.materializer) or materializer_params not in (None, spec.materializer_params):
-                    break
-                materializer, materializer_params = (spec.materializer, spec.materializer_params or None)
-            else:
-                jointly_generate = True
-            ...
-    """)
+    # read off the path summaries (a `for … else`, a flag cleared before `break`, tuple or separate assignments: one summary)
+    try:
+        outs = sym.outcomes(f.node)
+    except sym.Unmodelled as e:
+        raise AnalysisError(f"{rule}: ModelSpecs.get_model_matrix cannot be summarised: {e}")
+    lps = [l for l in sym.loops_of(outs) if "self._flatten()" in norm(l._sym_head)]
+    ok, why = len(lps) == 1, "the loop over the parts was not found"
+    if ok:
+        lp = lps[0]
+        sv = norm(lp._sym_orig.target)
+        NM, IN_M, IN_P = f"{sv}.materializer", f"materializer in (None, {sv}.materializer)", f"materializer_params in (None, {sv}.materializer_params)"
+
+        def bound(o, effs, name):
+            v = o.env.get(name)
+            for e in effs:   # a tuple assignment is kept as an effect
+                if isinstance(e, ast.Assign) and len(e.targets) == 1 and isinstance(e.targets[0], ast.Tuple) and isinstance(e.value, ast.Tuple):
+                    for t_, v_ in zip(e.targets[0].elts, e.value.elts):
+                        if isinstance(t_, ast.Name) and t_.id == name:
+                            v = v_
+            return norm(v) if v is not None else None
+        skip = sym.iteration_effects(outs, lp, {NM: False})
+        diff_m = sym.iteration_effects(outs, lp, {NM: True, IN_M: False})
+        diff_p = sym.iteration_effects(outs, lp, {NM: True, IN_M: True, IN_P: False})
+        same = sym.iteration_effects(outs, lp, {NM: True, IN_M: True, IN_P: True})
+        if not (skip and all(k in ("continue", "fall") and bound(o, effs, "materializer") in (None, "materializer") for k, effs, _e, o in skip)):
+            ok, why = False, "a part without a nominated materializer is not simply skipped"
+        elif not (diff_m and diff_p and all(k == "break" for k, *_ in diff_m + diff_p)):
+            ok, why = False, "a differing materializer or differing parameters do not leave the loop"
+        elif not (same and all(k in ("fall", "continue") and bound(o, effs, "materializer") == f"{sv}.materializer"
+                               and bound(o, effs, "materializer_params") == f"{sv}.materializer_params or None" for k, effs, _e, o in same)):
+            ok, why = False, "an agreeing part does not record its materializer and parameters for the comparison with the next part"
+        else:
+            after = [o for o in outs if not o.loops and o.kind == "return" and any(norm(c).startswith("loop_completed") for c, _ in o.conds)]
+            done = [o for o in after if any(pol and norm(c).startswith("loop_completed") for c, pol in o.conds)]
+            left = [o for o in after if any((not pol) and norm(c).startswith("loop_completed") for c, pol in o.conds)]
+            if not (done and all(o.value is not None and ".get_model_matrix(self, drop_rows=drop_rows)" in norm(o.value) for o in done)):
+                ok, why = False, "when no two parts disagree the parts are not handed to one materializer call"
+            elif not (left and all(o.value is not None and norm(o.value).startswith("self._map(") for o in left)):
+                ok, why = False, "after a disagreement the parts are not built one by one"
     ctx.check(ok, rule, "parts are built separately only when two parts NAME different materializers (parts without one never force it)", f.where,
               ctx.construct(f, text="joint generation decision"),
               f"the joint-generation loop changed: {why} — a part without a nominated materializer must be skipped, otherwise a fitted structure extended by a fresh part "
@@ -139,13 +164,8 @@ def record_frame(ctx, rule: str):
 # ------------------------------------------------------------------ map_dict: nested state written back, result in a fresh dict
 def map_dict_discipline(ctx, rule: str, what: str = "both"):
     P = ctx.project
-    outer = P.func(MAT + "._encode_evaled_factor")
-    w = None
-    for q, fi in P.functions.items():
-        if q.startswith(outer.qualname + ".") and q.endswith(".wrapped"):
-            w = fi
-    if w is None:
-        raise AnalysisError(f"{rule}: map_dict.wrapped not found")
+    from .shared import dict_mapper
+    _mname, _mf, w = dict_mapper(P)   # today: map_dict / wrapped, nested in _encode_evaled_factor
     pn = param_names(w.node)
     vals, state = pn[0], pn[2]
     try:
